@@ -4,7 +4,7 @@ from __future__ import annotations
 import ast
 from typing import Dict, List, Optional, Tuple
 
-from vlib import boolx, match, source
+from vlib import boolx, match, source, state
 from vlib.cfg import CFG
 from vlib.source import AnalysisError, call_name, dotted, last_attr, short
 
@@ -68,6 +68,78 @@ def classifier_atomise(job: str = "jobName", roles: Optional[dict] = None):
     return atomise
 
 
+def check_reserved_constants(ctx, m, rule: str, consequence: str) -> None:
+    """STATE engine: the class-level collections (SpecialFolders, data_reference_methods, ...) are shared by every call: no function of
+    flowir.py mutates one in place, directly or through a local bound to it without a copy.  Shared by C09 (classification) and C11
+    (what the validators reject)."""
+    cls_nodes = [c for c in ast.walk(m.tree) if isinstance(c, ast.ClassDef) and c.name == "FlowIR"]
+    ctx.require(bool(cls_nodes), "anchor missing: class FlowIR")
+    consts = state.class_mutable_constants(cls_nodes[0])
+    ctx.require("SpecialFolders" in consts, "anchor missing: FlowIR.SpecialFolders is no longer a class-level list/set display")
+    n_fn = 0
+    hits = []
+    for q, f in m.functions.items():
+        if not any(isinstance(x, ast.Attribute) and x.attr in consts for x in ast.walk(f)):
+            continue
+        n_fn += 1
+        for (node, cname, how) in state.shared_constant_mutations(f, consts, {"FlowIR"}):
+            hits.append((q, node, cname, how))
+    for (q, node, cname, how) in hits:
+        ctx.ob(rule, node, False,
+               "%s mutates the class-level collection FlowIR.%s in place (%s through a name bound to it without a copy): %s"
+               % (q, cname, how, consequence), construct="%s: in-place mutation of FlowIR.%s" % (q, cname))
+    if not hits:
+        ctx.ob(rule, cls_nodes[0], True,
+               "none of the %d functions that read a class-level collection of FlowIR (%s) mutates it in place" % (n_fn, ", ".join(sorted(consts))),
+               construct="class-level collections of FlowIR are never mutated in place")
+    ctx.floor(rule, n_fn, 5, "functions reading class-level collections of FlowIR")
+
+
+def check_method_alternation(ctx) -> None:
+    """R7: 'copy' is a prefix of 'copyout': an alternation of the reference methods must try the longer one first (or be closed by a
+    boundary), otherwise ':copyout' is read as ':copy' and the rest of the word is left over."""
+    rule = "C09.R7-method-alternation-longest-first"
+    n = 0
+    for rel in (FLOWIR, GRAPH):
+        m = ctx.repo.module(rel)
+        for q, f in m.functions.items():
+            for c in source.calls_in(f, include_nested=False):
+                if not (isinstance(c.func, ast.Attribute) and c.func.attr == "join" and isinstance(c.func.value, ast.Constant) and c.func.value.value == "|" and c.args):
+                    continue
+                arg = c.args[0]
+                srcs = [arg] + ([v for v in match.assigned_value(f, arg.id)] if isinstance(arg, ast.Name) else [])
+                if not any("data_reference_methods" in source.src(v) or "DataReference.methods" in source.src(v) for v in srcs):
+                    continue
+                n += 1
+                ctx.analysed(f)
+
+                def longest_first(e: ast.AST) -> bool:
+                    if not (isinstance(e, ast.Call) and call_name(e) == "sorted"):
+                        return False
+                    key = next((k.value for k in e.keywords if k.arg == "key"), None)
+                    rev = next((k.value for k in e.keywords if k.arg == "reverse"), None)
+                    by_len = (isinstance(key, ast.Name) and key.id == "len") or (isinstance(key, ast.Lambda) and isinstance(key.body, ast.Call) and call_name(key.body) == "len")
+                    neg_len = isinstance(key, ast.Lambda) and isinstance(key.body, ast.UnaryOp) and isinstance(key.body.op, ast.USub) \
+                        and isinstance(key.body.operand, ast.Call) and call_name(key.body.operand) == "len"
+                    return (by_len and isinstance(rev, ast.Constant) and rev.value is True) or (neg_len and rev is None)
+                ok = any(longest_first(v) for v in srcs)
+                # or: the pattern the alternation goes into closes the group with a boundary
+                if not ok:
+                    tgt = [a.targets[0].id for a in source.walk_own(f) if isinstance(a, ast.Assign) and a.value is c and isinstance(a.targets[0], ast.Name)]
+                    for a in source.walk_own(f):
+                        if isinstance(a, ast.Call) and call_name(a) == "re.compile" and a.args and tgt and tgt[0] in source.src(a.args[0]):
+                            txt = source.src(a.args[0])
+                            if ")\\\\b" in txt or ")(?!" in txt or ")$" in txt:
+                                ok = True
+                ctx.ob(rule, c, ok,
+                       "%s tries the reference methods longest first (or closes the alternation with a boundary)" % q if ok else
+                       "%s builds the alternation of reference methods in list order: 'copy' comes before 'copyout', so 'gen/out.txt:copyout' in a "
+                       "command line is detected as the reference 'gen/out.txt:copy' (and 'out' is left over) - a valid workflow is rejected with "
+                       "'Unknown reference to gen/out.txt:copy', the spelling that was parsed is not the one that was written" % q,
+                       construct="%s: '|'.join(<reference methods>) <- longest first" % q)
+    ctx.floor(rule, n, 1, "alternations built from the list of reference methods")
+
+
 def run(ctx) -> None:
     ctx.explanation = (
         "Printer/parser separator agreement for references, sibling cross-check of the two 'is this a component "
@@ -80,6 +152,8 @@ def run(ctx) -> None:
                                            "expand_potential_component_reference never expands variables, reserved first segments without stage prefix, or producers containing a path separator")
     ctx.rule("C09.R3-reserved-sets", "on every path the collection a classifier consults includes FlowIR.SpecialFolders, the caller's folders and "
              "(where the function takes them) the application-dependency names; application dependencies are mapped to their names")
+    ctx.rule("C09.R7-method-alternation-longest-first", "a regular-expression alternation built from the list of reference methods tries the longer "
+             "of two methods that share a prefix first (sorted by length, descending) or closes the group with a boundary")
     ctx.rule("C09.R6-reserved-constants-immutable", "the class-level collections of FlowIR (SpecialFolders, ...) are never mutated in place, "
              "directly or through an uncopied local alias")
     ctx.rule("C09.R4-first-path-segment", "the first segment of a manifest key is taken with the path separator; os.pathsep is used only on environment values")
@@ -280,31 +354,10 @@ def run(ctx) -> None:
     ctx.ob("C09.R3-reserved-sets", vals[0] if vals else pdf, ok, "application dependencies are mapped to their folder names" if ok else
            "application dependencies are compared without application_dependency_to_name")
 
-    # ---------------- R6 -------------------------------------------------------------------------------
-    # STATE engine: the class-level collections (SpecialFolders, data_reference_methods, ...) are shared by every call: no
-    # function of flowir.py mutates one in place, directly or through a local bound to it without a copy
-    cls_nodes = [c for c in ast.walk(m.tree) if isinstance(c, ast.ClassDef) and c.name == "FlowIR"]
-    ctx.require(bool(cls_nodes), "anchor missing: class FlowIR")
-    consts = state.class_mutable_constants(cls_nodes[0])
-    ctx.require("SpecialFolders" in consts, "anchor missing: FlowIR.SpecialFolders is no longer a class-level list/set display")
-    n_fn = 0
-    hits = []
-    for q, f in m.functions.items():
-        if not any(isinstance(x, ast.Attribute) and x.attr in consts for x in ast.walk(f)):
-            continue
-        n_fn += 1
-        for (node, cname, how) in state.shared_constant_mutations(f, consts, {"FlowIR"}):
-            hits.append((q, node, cname, how))
-    for (q, node, cname, how) in hits:
-        ctx.ob("C09.R6-reserved-constants-immutable", node, False,
-               "%s mutates the class-level collection FlowIR.%s in place (%s through a name bound to it without a copy): the folders of one "
-               "workflow stay reserved for every workflow loaded later in the process, so the same reference string is classified "
-               "differently depending on what was loaded before" % (q, cname, how), construct="%s: in-place mutation of FlowIR.%s" % (q, cname))
-    if not hits:
-        ctx.ob("C09.R6-reserved-constants-immutable", cls_nodes[0], True,
-               "none of the %d functions that read a class-level collection of FlowIR (%s) mutates it in place" % (n_fn, ", ".join(sorted(consts))),
-               construct="class-level collections of FlowIR are never mutated in place")
-    ctx.floor("C09.R6-reserved-constants-immutable", n_fn, 5, "functions reading class-level collections of FlowIR")
+    check_method_alternation(ctx)
+    check_reserved_constants(ctx, m, "C09.R6-reserved-constants-immutable",
+                             "the folders of one workflow stay reserved for every workflow loaded later in the process, so the same reference "
+                             "string is classified differently depending on what was loaded before")
 
     # ---------------- R4 -------------------------------------------------------------------------------
     tlf = m.func("Manifest.top_level_folders")
